@@ -339,10 +339,19 @@ Step(e) ==
                        \cup Flag("C04", e.v \notin refused, "a value whose Set returned false was passed to OnExit")
                        \cup Flag("C04", Get0(pendCb, e.g) \in {0, e.v}, "OnEvict/OnReject not followed by OnExit of the same value")
                        \cup Flag("C15", ~closed, "a callback ran after Close had returned")
+                       \cup Flag("C15", inClear = 0 \/ Get0(exitN, e.v) = 0, "Clear/Close released a value that had been released before")
          /\ UNCHANGED <<tid, cfg, vkey, vcost, vttl, vtb, vte, accepted, refused, evictN, rejectN, getSnap, 
                  ended, delBefore, cand, waitCov, dead, owed, inClear, clearEver, closed, openCalls, 
                  getsN, dropsN, getsAll, raised, maxMax, keysSeen, begunN, runN, exitDue, settled, 
                  iterSnap, pendRej, mcOpen, mcN, clrDirty, clrN, lateAdd, polCur>>
+
+    [] e.ev = "Pressure" ->      \* white-box look at one key under sustained write pressure (no quiescent point)
+         /\ bad' = bad \cup Flag("C14", e.v = 0 \/ e.v \notin DOMAIN vttl \/ vttl[e.v] = 0 \/ vte[e.v] < 0 \/ e.t <= vte[e.v] + vttl[e.v] + e.margin,
+                                 "an entry whose TTL elapsed long ago still occupies the cache although the cache has been processing writes all the time")
+         /\ UNCHANGED <<tid, cfg, vkey, vcost, vttl, vtb, vte, accepted, refused, exitN, evictN, rejectN, 
+                 exitedAt, pendCb, getSnap, ended, delBefore, cand, waitCov, dead, owed, inClear, 
+                 clearEver, closed, openCalls, getsN, dropsN, getsAll, raised, maxMax, keysSeen, begunN, 
+                 runN, exitDue, settled, iterSnap, pendRej, mcOpen, mcN, clrDirty, clrN, lateAdd, polCur>>
 
     [] e.ev \in {"Evict", "Reject"} ->
          /\ IF e.ev = "Evict" THEN evictN' = Put(evictN, e.v, Get0(evictN, e.v) + 1) /\ UNCHANGED rejectN
